@@ -145,6 +145,8 @@ type vector struct {
 	Ranges []prange        `json:"ranges"`
 	Status string          `json:"status"`
 	Cfg    string          `json:"cfg"`
+	State  string          `json:"state"`
+	Log    string          `json:"log"`
 	X      *allocx         `json:"x"`
 	C      json.RawMessage `json:"c"`
 	view   *vshape
